@@ -278,6 +278,10 @@ pub fn run(_st: &mut State, op: &str, cmd: &Value) -> Value {
                                     LayerEntryData::PopRange(p) => json!({"k": "pop", "kind": format!("{:?}", p.pop_type),
                                                                           "w": [f32bits(p.inner_radius_ratio)], "index": p.index,
                                                                           "rel": debug_numbers(&format!("{:?}", p.relative_positions))}),
+                                    LayerEntryData::BG(x) => json!({"k": "bg", "collision": format!("{:?}", x.collision_type),
+                                                                    "flags": [x.is_visible, x.render_shadow_enabled, x.render_light_shadow_enabeld],
+                                                                    "w": [w32(x.asset_path_string_offset), w32(x.collision_asset_path_string_offset), w32(x.attribute_mask),
+                                                                          w32(x.attribute), w32(x.collision_config as u32), f32bits(x.render_model_clip_range)]}),
                                     LayerEntryData::EnvSet(x) => json!({"k": "env", "shape": format!("{:?}", x.shape), "flag": x.is_env_map_shooting_point,
                                                                         "priority": x.priority,
                                                                         "w": [w32(x.asset_path_offset), w32(x.bound_instance_id), f32bits(x.effective_range),
